@@ -235,10 +235,10 @@ func c16Write(root string, h base.Height, it c16Items, signer base.LocalNode) (b
 var c16Kinds = []string{
 	"rewritten-untampered",
 	"foreign-states-tree", "extra-state", "missing-state", "altered-state", "states-and-tree-rebuilt",
-	"operation-missing", "operation-foreign", "foreign-operations-tree",
+	"operation-missing", "operation-foreign", "foreign-operations-tree", "operations-and-tree-of-other-block",
 	"proposal-other-block", "proposal-same-point-other-fact",
 	"voteproofs-other-block", "accept-majority-other-block",
-	"manifest-other-states-root", "manifest-other-proposal",
+	"manifest-other-states-root", "manifest-other-operations-root", "manifest-other-proposal",
 	"file-swapped-after-signing",
 }
 
@@ -294,6 +294,10 @@ func c16Apply(rt *rapid.T, s *c15Src, tm *c16Tamper, it *c16Items) {
 		tm.Detail = fmt.Sprintf("replace %d/%d", i, len(it.Ops))
 	case "foreign-operations-tree":
 		it.OpsTree = other.OpsTree
+	case "operations-and-tree-of-other-block":
+		// consistent with each other, not with the manifest
+		it.Ops = append([]base.Operation(nil), other.Ops...)
+		it.OpsTree = other.OpsTree
 	case "proposal-other-block":
 		it.Proposal = other.Proposal
 	case "proposal-same-point-other-fact":
@@ -321,6 +325,9 @@ func c16Apply(rt *rapid.T, s *c15Src, tm *c16Tamper, it *c16Items) {
 	case "manifest-other-states-root":
 		m := it.Manifest
 		it.Manifest = isaac.NewManifest(m.Height(), m.Previous(), m.Proposal(), m.OperationsTree(), other.Map.Manifest().StatesTree(), m.Suffrage(), m.ProposedAt())
+	case "manifest-other-operations-root":
+		m := it.Manifest
+		it.Manifest = isaac.NewManifest(m.Height(), m.Previous(), m.Proposal(), other.Map.Manifest().OperationsTree(), m.StatesTree(), m.Suffrage(), m.ProposedAt())
 	case "manifest-other-proposal":
 		m := it.Manifest
 		it.Manifest = isaac.NewManifest(m.Height(), m.Previous(), other.Map.Manifest().Proposal(), m.OperationsTree(), m.StatesTree(), m.Suffrage(), m.ProposedAt())
@@ -334,8 +341,8 @@ func TestC16(t *testing.T) {
 	defer r.Finish()
 	r.Rule("blocks 0..42 of a production-path chain (genesis, candidate, join, filler states); per case one block is served from an attacker's directory written with the production LocalFSWriter " +
 		"(checksums recomputed, block map re-signed by the attacker or by the original signer) either untouched or with one tampering {states tree of another block, extra / missing / altered state, " +
-		"altered states with a consistently rebuilt tree, missing / foreign operation, foreign operations tree, proposal of another block or another proposal for the same point, voteproofs of another block, " +
-		"ACCEPT voteproof at the same point whose majority is another block hash, manifest re-pointed to another states root / proposal, item file swapped after signing}; " +
+		"altered states with a consistently rebuilt tree, missing / foreign operation, foreign operations tree, operations and tree of another block, proposal of another block or another proposal for the same point, voteproofs of another block, " +
+		"ACCEPT voteproof at the same point whose majority is another block hash, manifest re-pointed to another states root / operations root / proposal, item file swapped after signing}; " +
 		"imported into a fresh node with the real BlockImporter (WriteMap, WriteItem per item, Save, merge). non-trivial: tampered and every item checksum matches the re-signed map; " +
 		"distinct by (height, other height, kind, parameters, signer)")
 	r.Floor(int64(r.N(120, 3000)))
